@@ -100,6 +100,8 @@ UNIT_DRIVERS = {
     "vlog_pointer": ["sstable::table::min_vlog_file_id_enum"],
     "table_add": ["sstable::table::roundtrip_enum_quick", "sstable::table::min_vlog_file_id_enum"],
     "table_meta": ["sstable::table::roundtrip_enum_quick"],
+    "recovery_flush": ["wal::crash_enum_quick"],
+    "lock_order": ["transaction::cursor_enum_quick"],
 }
 
 
